@@ -46,6 +46,7 @@ impl Texts {
             ascii(INLINE - 1).to_string(),
             format!("{}é", ascii(INLINE - 2)),
             format!("{}€", ascii(INLINE + 2)),
+            format!("{}é", ascii(2 * INLINE + 8)),
         ];
         let strs = vec![String::new(), "bc".to_string(), ascii(INLINE + 1).to_uppercase()];
         let st = vec![
@@ -143,6 +144,8 @@ pub enum Op {
     FromString(u8),
     Collect(u8),
     ToLeanDisplay(u8),
+    /// to_lean_string of a Display impl that ignores the results of its write_str calls
+    ToLeanSwallow(u8),
     FromStatic(u8),
     WithCap(u8),
     /// other conversions: (kind, text/value selector), see `conv_*`
@@ -170,6 +173,8 @@ pub enum Op {
     ExtendChars(u8),
     ExtendStrs(u8),
     ExtendLean(u8, u8), // (dst, src): dst.extend([src.clone()])
+    /// extend with a filtering char iterator: size_hint = (0, Some(more than is yielded))
+    ExtendFiltered(u8),
     AddAssign(u8),
     Add(u8),
     WriteFmt(u8),
@@ -188,15 +193,15 @@ impl Op {
     pub fn target(self) -> Option<usize> {
         use Op::*;
         Some(match self {
-            New | FromStr(_) | FromString(_) | Collect(_) | ToLeanDisplay(_) | FromStatic(_) | WithCap(_) | WithCapAbs(_) | Conv(..) => return None,
+            New | FromStr(_) | FromString(_) | Collect(_) | ToLeanDisplay(_) | ToLeanSwallow(_) | FromStatic(_) | WithCap(_) | WithCapAbs(_) | Conv(..) => return None,
             Clone(_) | FromRef(_) | ToLeanClone(_) => return None,
             CloneFrom(_, d) | Assign(_, d) => d,
-            Drop(i) | Push(i, _) | PushStr(i, _) | Pop(i) | Remove(i, _) | Insert(i, _, _) | InsertStr(i, _, _) | Truncate(i, _) | Clear(i) | Retain(i, _) | Reserve(i, _) | ShrinkTo(i, _) | ShrinkFit(i) | ExtendChars(i) | ExtendStrs(i) | ExtendLean(i, _) | AddAssign(i) | Add(i) | WriteFmt(i) | ReserveHuge(i, _) | ExtendHuge(i, _) | RetainPanic(i, _) | TruncateAbs(i, _) | PushAscii(i, _) => i,
+            Drop(i) | Push(i, _) | PushStr(i, _) | Pop(i) | Remove(i, _) | Insert(i, _, _) | InsertStr(i, _, _) | Truncate(i, _) | Clear(i) | Retain(i, _) | Reserve(i, _) | ShrinkTo(i, _) | ShrinkFit(i) | ExtendChars(i) | ExtendStrs(i) | ExtendLean(i, _) | ExtendFiltered(i) | AddAssign(i) | Add(i) | WriteFmt(i) | ReserveHuge(i, _) | ExtendHuge(i, _) | RetainPanic(i, _) | TruncateAbs(i, _) | PushAscii(i, _) => i,
         } as usize)
     }
     pub fn is_ctor(self) -> bool {
         use Op::*;
-        matches!(self, New | FromStr(_) | FromString(_) | Collect(_) | ToLeanDisplay(_) | FromStatic(_) | WithCap(_) | WithCapAbs(_) | Conv(..))
+        matches!(self, New | FromStr(_) | FromString(_) | Collect(_) | ToLeanDisplay(_) | ToLeanSwallow(_) | FromStatic(_) | WithCap(_) | WithCapAbs(_) | Conv(..))
     }
     pub fn is_clone(self) -> bool {
         use Op::*;
@@ -210,6 +215,7 @@ impl Op {
             FromString(_) => "from_string",
             Collect(_) => "collect",
             ToLeanDisplay(_) => "to_lean_string_display",
+            ToLeanSwallow(_) => "to_lean_string_swallowing_display",
             FromStatic(_) => "from_static_str",
             WithCap(_) | WithCapAbs(_) => "with_capacity",
             Conv(k, _) => CONV_NAMES[k as usize],
@@ -234,6 +240,7 @@ impl Op {
             ExtendChars(_) => "extend_chars",
             ExtendStrs(_) => "extend_strs",
             ExtendLean(..) => "extend_lean",
+            ExtendFiltered(_) => "extend_filtered",
             AddAssign(_) => "add_assign",
             Add(_) => "add",
             WriteFmt(_) => "write_fmt",
@@ -503,6 +510,25 @@ pub fn conv_build(k: u8, t: u8, try_form: bool) -> Result<LeanString, lean_strin
     })
 }
 
+/// a Display impl that writes three pieces and ignores what write_str returns
+struct Swallowing<'a>(&'a str);
+impl std::fmt::Display for Swallowing<'_> {
+    fn fmt(&self, f: &mut std::fmt::Formatter<'_>) -> std::fmt::Result {
+        let cut = |n: usize| {
+            let mut n = n.min(self.0.len());
+            while !self.0.is_char_boundary(n) {
+                n -= 1;
+            }
+            n
+        };
+        let (a, b) = (cut(self.0.len() / 3), cut(2 * self.0.len() / 3));
+        let _ = f.write_str(&self.0[..a]);
+        let _ = f.write_str(&self.0[a..b]);
+        let _ = f.write_str(&self.0[b..]);
+        Ok(())
+    }
+}
+
 pub fn shrink_arg(h: &LeanString, k: u8) -> usize {
     match k {
         0 => 0,
@@ -552,7 +578,7 @@ pub fn grow_bytes(p: &Pool, op: Op) -> usize {
         PushStr(_, s) | InsertStr(_, _, s) => texts(|t| t.strs[s as usize].len()),
         PushAscii(_, n) => n as usize,
         AddAssign(_) | Add(_) | WriteFmt(_) => 2,
-        ExtendChars(_) => 4,
+        ExtendChars(_) | ExtendFiltered(_) => 4,
         ExtendStrs(_) => 3,
         ExtendHuge(_, n) => [0, 1, 3][n as usize],
         ExtendLean(_, s) => p.m[s as usize].as_ref().map_or(0, |m| m.len()),
@@ -570,7 +596,7 @@ pub fn op_enabled(p: &Pool, op: Op, lim: &Limits) -> bool {
         }
         if let Some(post) = lim.post {
             let n = match op {
-                FromStr(t) | FromString(t) | Collect(t) | ToLeanDisplay(t) => texts(|x| x.src[t as usize].len()),
+                FromStr(t) | FromString(t) | Collect(t) | ToLeanDisplay(t) | ToLeanSwallow(t) => texts(|x| x.src[t as usize].len()),
                 Conv(k, t) => conv_text(k, t).len(),
                 FromStatic(t) => texts(|x| x.statics[t as usize].len()),
                 WithCap(c) => texts(|x| x.caps[c as usize]),
@@ -609,7 +635,7 @@ pub fn op_enabled(p: &Pool, op: Op, lim: &Limits) -> bool {
                 },
             }
         }
-        Push(i, _) | PushStr(i, _) | ExtendChars(i) | ExtendStrs(i) | AddAssign(i) | Add(i) | WriteFmt(i) | PushAscii(i, _) | ExtendHuge(i, _) => has(i) && grows_ok(i),
+        Push(i, _) | PushStr(i, _) | ExtendChars(i) | ExtendFiltered(i) | ExtendStrs(i) | AddAssign(i) | Add(i) | WriteFmt(i) | PushAscii(i, _) | ExtendHuge(i, _) => has(i) && grows_ok(i),
         Drop(i) | Pop(i) | Clear(i) | Retain(i, _) | ShrinkTo(i, _) | ShrinkFit(i) | ReserveHuge(i, _) | TruncateAbs(i, _) => has(i),
         Reserve(i, k) => has(i) && lim.post.is_none_or(|post| p.m[i as usize].as_ref().unwrap().len() + texts(|t| t.reserves[k as usize]) <= post),
         RetainPanic(i, k) => has(i) && p.m[i as usize].as_ref().unwrap().chars().count() >= k as usize,
@@ -671,6 +697,10 @@ pub fn exec(p: &mut Pool, op: Op, form: Form) -> (Outcome, Expect) {
         ToLeanDisplay(t) => {
             let s = texts(|x| x.src[t as usize].clone());
             ctor!(Piecewise(&s).to_lean_string(), try_tls(&Piecewise(&s)), s.clone())
+        }
+        ToLeanSwallow(t) => {
+            let s = texts(|x| x.src[t as usize].clone());
+            ctor!(Swallowing(&s).to_lean_string(), try_tls(&Swallowing(&s)), s.clone())
         }
         FromStatic(t) => {
             let s: &'static str = texts(|x| x.statics[t as usize]);
@@ -823,6 +853,17 @@ pub fn exec(p: &mut Pool, op: Op, form: Form) -> (Outcome, Expect) {
                 Form::Try => quiet(|| h.extend([String::from("b"), String::from("cd")])),
             };
             m.extend(["b", "cd"]);
+            (r.map(|_| Outcome::Done(Out::Unit)).unwrap_or_else(Outcome::Panic), Expect::Done(Out::Unit))
+        }
+        ExtendFiltered(i) => {
+            let (h, m) = hm!(i);
+            // yields 'a', '€' (4 bytes); the upper bound of the size hint is 9 (the byte length)
+            let src = "ax€xyzq";
+            let r = match form {
+                Form::Plain => quiet(|| h.extend(src.chars().filter(|c| !"xyzq".contains(*c)))),
+                Form::Try => quiet(|| h.extend(src.chars().filter(|c| !"xyzq".contains(*c)).collect::<Vec<char>>().iter().filter(|_| true))),
+            };
+            m.extend(src.chars().filter(|c| !"xyzq".contains(*c)));
             (r.map(|_| Outcome::Done(Out::Unit)).unwrap_or_else(Outcome::Panic), Expect::Done(Out::Unit))
         }
         ExtendLean(d, s) => {
